@@ -675,6 +675,19 @@ func judgeJoin(sc JoinScenario, tr *JoinTrace, inBubble bool) (fs []joinFinding,
 		if len(cat) > 0 && (cat[len(cat)-1] >= len(sc.Steps) || cat[0] < 0) {
 			add("C16", "not-written", "after stop: delivered an element that was never written")
 		}
+		// C08 (v1, no-copy): elements enter the accumulation buffer in the order they are read,
+		// so every slice is a run of consecutive elements; one that is not was rewritten after it
+		// had been filled - e.g. while it sat, delivered but unread, in the output buffer
+		if sc.NoCopy && !isUnite {
+			for i, o := range tr.Out {
+				for j := 1; j < len(o.Data); j++ {
+					if o.Data[j] != o.Data[j-1]+1 {
+						add("C08", "rewritten-before-read", "no-copy mode, %s injected: output slice #%d %v is not a run of consecutive input elements - its memory was written to after it had been filled and sent", sc.StopKind, i, o.Data)
+						break
+					}
+				}
+			}
+		}
 		return
 	}
 	if !tr.Closed {
